@@ -13,4 +13,4 @@ echo "== check"; cd /verif; cp evidence/$P.json /tmp/evidence-$P-$$.json 2>/dev/
 VERIF_REPO=$WT ./check $P --tier ${TIER:-quick}; echo "check exit=$?"
 cp evidence/$P.json /tmp/evidence-seed-$P.json 2>/dev/null; mv /tmp/evidence-$P-$$.json evidence/$P.json 2>/dev/null
 # put the generated model back in step with /repo
-for g in gen.py gen_deps.py gen_files.py gen_units.py; do /venv/bin/python tools/translate/$g /repo coq/Gen > /dev/null; done
+for g in gen.py gen_deps.py gen_files.py gen_units.py gen_pumps.py; do /venv/bin/python tools/translate/$g /repo coq/Gen > /dev/null; done
